@@ -377,6 +377,7 @@ func extractFacts(pkgs []*packages.Package, prog *ssa.Program, byPath map[string
 	sb.WriteString(spanFacts(pz))
 	sb.WriteString(bptFacts(p))
 	sb.WriteString(readPathFacts(p))
+	sb.WriteString(applierFacts(p))
 	// ---- mode check decision
 	sb.WriteString(modeFacts(p))
 	sb.WriteString(lockFacts(prog, sp))
@@ -679,6 +680,96 @@ func readPathFacts(p *packages.Package) string {
 		}
 	}
 	return "/-- tx_bptree.go: conditions and loop headers of the key/value read path (RAM and sparse modes): (function, kind, source text), in source order -/\ndef readPathStmts : List (String × String × String) := [\n" + strings.Join(items, ",\n") + "]\n\n"
+}
+
+// applierFacts: the appliers of records to the in-memory indexes, at Commit (tx.go) and at Open (db.go), the
+// rotation, and the scan of the data files at Open: every condition (plain error tests left out), loop header,
+// switch tag, case clause and call statement — (file:function, kind, source text), in source order.
+func applierFacts(p *packages.Package) string {
+	want := map[string]map[string]bool{
+		"tx.go": {"buildTempBucketMetaIdx": true, "buildBucketMetaIdx": true, "buildTxIDRootIdx": true, "buildIdxes": true, "buildBPTreeIdx": true,
+			"buildSetIdx": true, "buildSortedSetIdx": true, "buildListIdx": true, "rotateActiveFile": true},
+		"db.go": {"parseDataFiles": true, "buildBPTreeIdx": true, "buildActiveBPTreeIdx": true, "buildOtherIdxes": true, "buildHintIdx": true,
+			"buildSetIdx": true, "buildSortedSetIdx": true, "buildListIdx": true, "getActiveFileWriteOff": true},
+	}
+	var items []string
+	if p != nil {
+		for _, f := range p.Syntax {
+			fn := p.Fset.Position(f.Pos()).Filename
+			base := fn[strings.LastIndex(fn, "/")+1:]
+			set, ok := want[base]
+			if !ok {
+				continue
+			}
+			for _, d := range f.Decls {
+				fd, ok := d.(*ast.FuncDecl)
+				if !ok || fd.Body == nil || !set[fd.Name.Name] {
+					continue
+				}
+				name := base + ":" + fd.Name.Name
+				add := func(kind, text string) {
+					if strings.Contains(text, "verifFS") || strings.Contains(text, "verifCrash") {
+						return
+					}
+					items = append(items, fmt.Sprintf("  (%s, %s, %s)", leanStr(name), leanStr(kind), leanStr(text)))
+				}
+				ast.Inspect(fd.Body, func(n ast.Node) bool {
+					switch x := n.(type) {
+					case *ast.ForStmt:
+						h := ""
+						if as, ok := x.Init.(*ast.AssignStmt); ok && len(as.Lhs) == 1 {
+							h = exprStr(p.Fset, as.Lhs[0]) + " " + as.Tok.String() + " " + exprStr(p.Fset, as.Rhs[0])
+						}
+						h += "; "
+						if x.Cond != nil {
+							h += exprStr(p.Fset, x.Cond)
+						}
+						h += "; "
+						if id, ok := x.Post.(*ast.IncDecStmt); ok {
+							h += exprStr(p.Fset, id.X) + id.Tok.String()
+						}
+						add("for", h)
+					case *ast.RangeStmt:
+						add("range", exprStr(p.Fset, x.X))
+					case *ast.IfStmt:
+						t := exprStr(p.Fset, x.Cond)
+						if t != "err != nil" && t != "err == nil" {
+							add("if", t)
+						}
+					case *ast.SwitchStmt:
+						if x.Tag != nil {
+							add("switch", exprStr(p.Fset, x.Tag))
+						}
+					case *ast.CaseClause:
+						var es []string
+						for _, e := range x.List {
+							es = append(es, exprStr(p.Fset, e))
+						}
+						if len(es) == 0 {
+							add("case", "default")
+						} else {
+							add("case", strings.Join(es, ", "))
+						}
+					case *ast.ExprStmt:
+						if ce, ok := x.X.(*ast.CallExpr); ok {
+							add("call", exprStr(p.Fset, ce))
+						}
+					case *ast.AssignStmt:
+						if len(x.Rhs) == 1 {
+							if ce, ok := x.Rhs[0].(*ast.CallExpr); ok {
+								t := exprStr(p.Fset, ce)
+								if !strings.HasPrefix(t, "make(") && !strings.HasPrefix(t, "string(") && !strings.HasPrefix(t, "len(") {
+									add("call", t)
+								}
+							}
+						}
+					}
+					return true
+				})
+			}
+		}
+	}
+	return "/-- tx.go / db.go: the appliers of records to the indexes (at Commit and at Open), rotation, and the scan of the data files at Open: (file:function, kind, source text), in source order -/\ndef applierStmts : List (String × String × String) := [\n" + strings.Join(items, ",\n") + "]\n\n"
 }
 
 // modeFacts: the two refusal conditions of checkEntryIdxMode, as printed source.
